@@ -103,7 +103,7 @@ def run(ctx):
     ctx.prove(required=REQUIRED)
     model = ctx.build_model("c11")
     progs = workload(ctx)
-    workers = int(os.environ.get("VERIF_WORKERS", "8" if ctx.tier == "quick" else "14"))
+    workers = int(os.environ.get("VERIF_WORKERS", "12" if ctx.tier == "quick" else "14"))
     results = c11_run.run_programs(ctx, harness, [(n, s) for n, _, s in progs], trace=True, workers=workers)
     dist, evals, samples, nontrivial = {}, 0, [], 0
     for name, construct, src in progs:
